@@ -459,7 +459,29 @@ func c06Run(c Case) (Result, error) {
 		for i := 0; i <= in.T; i++ {
 			_, _ = ts4.TrustedAdd(i, shares[i])
 		}
+		// a signer already in a FULL pool is still reported as a duplicate by either add (first, last-added),
+		// before and after the reconstruction; a further signer is accepted and changes nothing
+		dupFull := func(when string) {
+			for _, d := range []int{0, in.T} {
+				if _, err := ts4.TrustedAdd(d, shares[d]); !crypto.IsDuplicatedSignerError(err) {
+					fail(fmt.Sprintf("TrustedAdd of signer %d, already in the full pool (%s): %v", d, when, err))
+				}
+				if _, _, err := ts4.VerifyAndAdd(d, shares[d]); !crypto.IsDuplicatedSignerError(err) {
+					fail(fmt.Sprintf("VerifyAndAdd of signer %d, already in the full pool (%s): %v", d, when, err))
+				}
+			}
+			if in.T+1 < in.N {
+				if en, err := ts4.TrustedAdd(in.T+1, shares[in.T+1]); err != nil || !en {
+					fail(fmt.Sprintf("TrustedAdd of a further signer to a full pool (%s) = (%v, %v)", when, en, err))
+				}
+				if has, err := ts4.HasShare(in.T + 1); err != nil || has {
+					fail(fmt.Sprintf("a share added to a full pool (%s) was retained: HasShare = (%v, %v)", when, has, err))
+				}
+			}
+		}
+		dupFull("before the reconstruction")
 		o1, e1 := ts4.ThresholdSignature()
+		dupFull("after the reconstruction")
 		o2, e2 := ts4.ThresholdSignature()
 		if e1 != nil || e2 != nil || !bytes.Equal(o1, o2) {
 			fail("successful threshold signature not stable across calls")
